@@ -51,6 +51,9 @@ func runConc(c ConcCase) (msg string) {
 					panicked.Store(fmt.Sprintf("goroutine %d: panic: %v", g, r))
 				}
 			}()
+			// mine: this goroutine's view of the keys of its private session (nobody else inserts or
+			// acknowledges there; sweeps of other goroutines may expire them at any time)
+			mine := map[string]*creg{}
 			for i, op := range prog {
 				if c.Yields > 0 && i%c.Yields == 0 {
 					runtime.Gosched()
@@ -60,10 +63,17 @@ func runConc(c ConcCase) (msg string) {
 					s = g + 10
 				}
 				sess := fmt.Sprintf("s%d", s)
+				if s != 0 && g < 4 {
+					// the private sessions of the first goroutines are pairs of identifiers with the
+					// same CRC-32 / FNV-1a digest: distinct keys all the same
+					sess = sessionName(g + 1)
+				}
 				switch op.Op {
 				case "ins":
 					stored, _, _ := mkStored(op.Kind, op.ID)
 					r := &creg{key: fmt.Sprintf("%s/%d", sess, op.ID)}
+					pk := fmt.Sprintf("%s/%v/%d", sess, op.Kind == "pubrec", op.ID)
+					free := mine[pk] == nil || atomic.LoadInt32(&mine[pk].fired) > 0
 					err := q.Insert(sess, stored, t0.Add(time.Duration(op.D)*time.Millisecond), func(expired bool, st, rcv packet.Packet) {
 						atomic.AddInt32(&r.fired, 1)
 						if !expired {
@@ -76,10 +86,24 @@ func runConc(c ConcCase) (msg string) {
 						regs = append(regs, r)
 						mu.Unlock()
 					}
+					if s != 0 {
+						if err != nil && free {
+							panicked.Store(fmt.Sprintf("goroutine %d: registration of %s in its private session %q was refused (%v) although nothing is pending under that key: operations on distinct keys interfere", g, pk, sess, err))
+							return
+						}
+						if err == nil {
+							mine[pk] = r
+						}
+					}
 				case "ack":
 					pkt, _, _ := mkAck(op.Kind, op.ID)
 					if q.Ack(sess, pkt) == nil {
 						atomic.AddInt64(&okAcks, 1)
+						pk := fmt.Sprintf("%s/%v/%d", sess, op.Kind == "pubrel", op.ID)
+						if r := mine[pk]; s != 0 && (r == nil || atomic.LoadInt32(&r.firedAck) != 1) {
+							panicked.Store(fmt.Sprintf("goroutine %d: acknowledgement %s for %s in its private session %q succeeded, but it did not resolve this goroutine's own registration of that key (it resolved somebody else's entry)", g, op.Kind, pk, sess))
+							return
+						}
 					}
 				case "exp":
 					q.Expire(t0.Add(time.Duration(op.D) * time.Millisecond))
